@@ -73,7 +73,31 @@ def _sv_x_le_y(cfg):
         raise ValueError("x must be <= y")
 
 
-FIELD_VALIDATORS = {"even": _v_even}
+def _v_sorted(cfg, value):
+    if list(value) != sorted(value):
+        raise ValueError("list must be sorted")
+    return value
+
+
+def _v_max2(cfg, value):
+    if len(value) > 2:
+        raise ValueError("at most 2 items")
+    return value
+
+
+def _v_has_a(cfg, value):
+    if "a" not in value:
+        raise ValueError("dict must contain key 'a'")
+    return value
+
+
+def _v_sum10(cfg, value):
+    if sum(value.values()) > 10:
+        raise ValueError("sum of values must be <= 10")
+    return value
+
+
+FIELD_VALIDATORS = {"even": _v_even, "sorted": _v_sorted, "max2": _v_max2, "has-a": _v_has_a, "sum<=10": _v_sum10}
 SCHEMA_VALIDATORS = {"x<=y": _sv_x_le_y}
 _CLASSES = {"string": "StringField", "int": "IntField", "float": "FloatField", "port": "PortField",
             "bool": "BoolField", "featureflag": "FeatureFlagField", "ipv4": "IPv4AddressField",
@@ -267,9 +291,11 @@ def apply_op(bt, root, op):
     kind = op["op"]
     try:
         if kind == "setattr":
-            setattr(navigate(root, op["nav"]), op["key"], _held(root, dec(op["value"], bt.tmp)))
+            setattr(navigate(root, op["nav"]), op["key"], _held(root, dec(op["value"], bt.tmp), bt))
         elif kind == "setitem":
-            root[op["path"]] = _held(root, dec(op["value"], bt.tmp))
+            root[op["path"]] = _held(root, dec(op["value"], bt.tmp), bt)
+        elif kind == "setitem-on":
+            navigate(root, op["nav"])[op["key"]] = _held(root, dec(op["value"], bt.tmp), bt)
         elif kind == "reset":
             bt.cc.reset_value(navigate(root, op["nav"]), op["key"])
         elif kind == "ctor":
@@ -308,8 +334,14 @@ def apply_op(bt, root, op):
                 dct.update({key: val})
             else:
                 dct.update(**{key: val})
+        elif kind == "mut":
+            obj, args = navigate(root, op["nav"]), dec(op["args"], bt.tmp)
+            if op["meth"] == "setitem":
+                obj[args[0]] = args[1]
+            else:
+                getattr(obj, op["meth"])(*args)
         elif kind == "load_tree":
-            navigate(root, op.get("nav", [])).load_tree(dec(op["tree"], bt.tmp))
+            navigate(root, op.get("nav", [])).load_tree(_held(root, dec(op["tree"], bt.tmp), bt))
         elif kind in ("loads", "load"):
             for name, content in (op.get("files") or {}).items():
                 path = os.path.join(bt.tmp, name)
@@ -340,15 +372,29 @@ def apply_op(bt, root, op):
     return None
 
 
-def _held(root, value):
-    """replace {"$heldnav": nav} markers by the object found at nav in the live tree (an item a list already holds)"""
+def _held(root, value, bt=None):
+    """replace {"$heldnav": nav} markers by the object found at nav in the live tree (an item a list already holds) and
+    {"$donor": {"nav": nav, "muts": [[method, args], ...]}} markers by the list/dict PROXY another configuration of the
+    same schema holds at nav after the given in-place mutations"""
     if isinstance(value, dict):
         if len(value) == 1 and "$heldnav" in value:
             return navigate(root, value["$heldnav"])
-        return {k: _held(root, v) for k, v in value.items()}
+        if len(value) == 1 and "$donor" in value:
+            obj = navigate(bt.schema(), value["$donor"]["nav"])
+            for meth, args in value["$donor"]["muts"]:
+                args = dec(args, bt.tmp)
+                if meth == "setitem":
+                    obj[args[0]] = args[1]
+                else:
+                    getattr(obj, meth)(*args)
+            return obj
+        return {k: _held(root, v, bt) for k, v in value.items()}
     if isinstance(value, list):
-        return [_held(root, v) for v in value]
+        return [_held(root, v, bt) for v in value]
     return value
+
+
+_DOCS = {}  # well-formed documents by (directory, format, tree): pure function of the real formatter, reused
 
 
 def _content(bt, fmt, doc):
@@ -357,8 +403,12 @@ def _content(bt, fmt, doc):
         data = base64.b64decode(doc["b64"])
     else:
         kwargs = {"root_tag": doc["root_tag"]} if doc.get("root_tag") else {}
-        formatter = bt.cc.ConfigFormat.get(fmt, **kwargs)
-        data = formatter.dumps(bt.schema(), dec(doc["tree"], bt.tmp))
+        key = (bt.tmp, fmt, json.dumps(doc["tree"], sort_keys=True, default=str), doc.get("root_tag"))
+        if key not in _DOCS:
+            if len(_DOCS) > 512:
+                _DOCS.clear()
+            _DOCS[key] = bt.cc.ConfigFormat.get(fmt, **kwargs).dumps(None, dec(doc["tree"], bt.tmp))
+        data = _DOCS[key]
     mal = doc.get("malform")
     if mal == "cut-half":
         data = data[:len(data) // 2]
@@ -767,6 +817,116 @@ def held_cases(bt, top):
                         "op": "list", "nav": nav, "meth": "setitem", "index": 0, "value": stash}
 
 
+WITEM = {"t": "schema", "fields": [["n", {"t": "int", "min": 0}], ["name", {"t": "string", "required": True, "max_len": 3}]]}
+WHOLE = {
+    "defs": {"WItem": WITEM},
+    "root": {"t": "schema", "fields": [
+        ["li", {"t": "list", "item": {"t": "int"}, "validator": "sorted", "default": _c([1, 2])}],
+        ["ls", {"t": "list", "item": {"t": "string", "max_len": 3}, "validator": "max2", "default": _c(["a"])}],
+        ["lsch", {"t": "list", "item": {"t": "ref", "name": "WItem"}, "validator": "max2", "default": _c([{"n": 1, "name": "a"}])}],
+        ["d", {"t": "dict", "kf": {"t": "string"}, "vf": {"t": "int"}, "validator": "has-a", "default": _c({"a": 1})}],
+        ["d2", {"t": "dict", "kf": {"t": "string"}, "vf": {"t": "int"}, "validator": "sum<=10", "default": _c({"x": 3})}],
+        ["w", {"t": "int", "default": _c(0)}],
+        ["sub", {"t": "schema", "fields": [
+            ["li2", {"t": "list", "item": {"t": "int"}, "validator": "sorted", "default": _c([1, 3])}],
+            ["d3", {"t": "dict", "kf": {"t": "string"}, "vf": {"t": "int"}, "validator": "has-a", "default": _c({"a": 2})}],
+            ["v", {"t": "int", "default": _c(0)}]]}]]},
+    "tree": {"li": [2, 5], "ls": ["b", "c"], "lsch": [{"n": 2, "name": "b"}, {"n": 3, "name": "c"}], "d": {"a": 5, "q": 1},
+             "d2": {"x": 1, "y": 2}, "sub": {"li2": [0, 9], "d3": {"a": 0, "z": 4}}},
+}
+# (kind, nav of the owning configuration, key, rejected whole values: (variant, value, extra setup))
+_M3 = [{"n": 4, "name": "x"}, {"n": 5, "name": "y"}, {"n": 6, "name": "z"}]
+_WHOLE_FIELDS = [
+    ("list<int>", [], "li", [("list", [3, 1], []), ("tuple", (3, 1), []),
+                             ("other-proxy", {"$donor": {"nav": ["li"], "muts": [["append", [0]]]}}, []),
+                             ("own-proxy", {"$heldnav": ["li"]}, [{"op": "mut", "nav": ["li"], "meth": "append", "args": [0]}])]),
+    ("list<string>", [], "ls", [("list", ["a", "b", "c"], []), ("tuple", ("a", "b", "c"), []),
+                                ("other-proxy", {"$donor": {"nav": ["ls"], "muts": [["append", ["p"]], ["append", ["q"]]]}}, [])]),
+    ("list<schema>", [], "lsch", [("list", _M3, []), ("tuple", tuple(_M3), []),
+                                  ("held-item-first", [{"$heldnav": ["lsch", 0]}] + _M3[:2], []),
+                                  ("other-proxy", {"$donor": {"nav": ["lsch"], "muts": [["append", [_M3[0]]], ["append", [_M3[1]]]]}}, []),
+                                  ("own-proxy", {"$heldnav": ["lsch"]},
+                                   [{"op": "mut", "nav": ["lsch"], "meth": "append", "args": [_M3[0]]},
+                                    {"op": "mut", "nav": ["lsch"], "meth": "append", "args": [_M3[1]]}])]),
+    ("dict<str,int>", [], "d", [("dict", {"b": 1, "c": 2}, []),
+                                ("other-proxy", {"$donor": {"nav": ["d"], "muts": [["setitem", ["b", 2]], ["pop", ["a"]]]}}, []),
+                                ("own-proxy", {"$heldnav": ["d"]}, [{"op": "mut", "nav": ["d"], "meth": "pop", "args": ["a"]},
+                                                                    {"op": "mut", "nav": ["d"], "meth": "setitem", "args": ["k", 1]}])]),
+    ("dict<str,int>:sum", [], "d2", [("dict", {"x": 6, "y": 7}, []),
+                                     ("other-proxy", {"$donor": {"nav": ["d2"], "muts": [["setitem", ["y", 9]]]}}, [])]),
+    ("nested:list<int>", ["sub"], "li2", [("list", [9, 0], []), ("tuple", (9, 0), []),
+                                          ("other-proxy", {"$donor": {"nav": ["sub", "li2"], "muts": [["append", [0]]]}}, [])]),
+    ("nested:dict<str,int>", ["sub"], "d3", [("dict", {"b": 1}, []),
+                                             ("other-proxy", {"$donor": {"nav": ["sub", "d3"], "muts": [["pop", ["a"]], ["setitem", ["b", 1]]]}}, [])]),
+]
+
+
+def whole_cases():
+    """(state, setup, obligation, witness_key, variant, op, watch nav): a container field with a field-level validator
+    that rejects the value AS A WHOLE (every item is valid) while the configuration already holds a non-empty value"""
+    tree = WHOLE["tree"]
+    assigned = [{"op": "setattr", "nav": [], "key": k, "value": v} for k, v in tree.items() if k != "sub"]
+    assigned += [{"op": "setattr", "nav": ["sub"], "key": k, "value": v} for k, v in tree["sub"].items()]
+    states = [("default", []), ("assigned", assigned), ("load_tree", [{"op": "load_tree", "tree": tree}])]
+    for how, base in states:
+        for kind, nav, key, values in _WHOLE_FIELDS:
+            for variant, value, extra in values:
+                setup = base + extra
+                ev = enc(value)
+                wk = "whole-value-validator:%s/%s/" % (kind, how)
+                watch = nav + [key]
+                yield how, setup, "core:Config._set_value/raise:C06.state-unchanged", wk + "setattr", variant, {
+                    "op": "setattr", "nav": nav, "key": key, "value": ev}, watch
+                yield how, setup, "core:Config.__setitem__/raise:C06.state-unchanged", wk + "dotted", variant, {
+                    "op": "setitem", "path": ".".join(watch), "value": ev}, watch
+                if nav:
+                    yield how, setup, "core:Config.__setitem__/raise:C06.state-unchanged", wk + "item", variant, {
+                        "op": "setitem-on", "nav": nav, "key": key, "value": ev}, watch
+                yield how, setup, "core:Config.load_tree/raise:C06.state-unchanged", wk + "load_tree", variant, {
+                    "op": "load_tree", "nav": nav, "tree": {key: ev}}, watch
+                if nav:
+                    # sub-map assigned to the enclosing sub-configuration: accepted sibling first, then the rejected value
+                    yield how, setup, "core:Config._set_value/raise:C06.state-unchanged", wk + "submap", variant, {
+                        "op": "setattr", "nav": nav[:-1], "key": nav[-1], "value": {"v": 7, key: ev}}, watch
+                    yield how, setup, "core:Config.load_tree/raise:C06.state-unchanged", wk + "load_tree-submap", variant, {
+                        "op": "load_tree", "nav": nav[:-1], "tree": {nav[-1]: {"v": 7, key: ev}}}, watch
+
+
+def _freeze(bt, held):
+    """contents of a list/dict the user keeps a reference to (config items by identity + state)"""
+    if isinstance(held, dict):
+        return ("dict", [(repr(k), repr(v)) for k, v in held.items()])
+    return ("list", [snapshot(i) if isinstance(i, bt.cc.Config) else repr(i) for i in held])
+
+
+def check_whole(setup, op, watch, tmp):
+    bt = Built(WHOLE, tmp, populate=False)
+    root = bt.schema()
+    for sop in setup:
+        exc = apply_op(bt, root, sop)
+        if exc is not None:
+            raise AssertionError("driver bug: setup op %r raised %r" % (sop, exc))
+    held = navigate(root, watch)          # the reference a user keeps: held = cfg.f
+    if not held:
+        raise AssertionError("driver bug: %r holds no value" % (watch,))
+    frozen, before = _freeze(bt, held), snapshot(root)
+    exc = apply_op(bt, root, op)
+    if exc is None:
+        return "skip", "operation was accepted"
+    if not isinstance(exc, ValueError):
+        return "skip", "out-of-scope exception %s" % type(exc).__name__
+    after = snapshot(root)
+    diff = None if before == after else _first_diff(before, after)
+    if diff:
+        return "fail", "%s raised %s but state changed: %s" % (op["op"], type(exc).__name__, diff)
+    if navigate(root, watch) is not held:
+        return "fail", "%s raised but the configuration holds another container object" % op["op"]
+    after = _freeze(bt, held)
+    if after != frozen:
+        return "fail", "%s raised but the list/dict the user still references changed: %s" % (op["op"], _first_diff(frozen, after, "held"))
+    return "ok", type(exc).__name__
+
+
 def load_ops(bt, top):
     """failing document loads: (obligation, witness_key, op, scope) with scope 'parse' | 'include'"""
     ob = "core:Config.loads/raise:C06.state-unchanged"
@@ -896,7 +1056,7 @@ def check(top, setup, op, scope, tmp, populate=True):
     if scope == "include" and not _unresolvable(bt, op):
         return "skip", "the include file is resolvable here (e.g. unreadable files do not exist for root)"
     after = snapshot(root)
-    diff = _first_diff(before, after)
+    diff = None if before == after else _first_diff(before, after)
     if diff is None and op["op"] == "ctor":
         diff = _first_diff(table, _schema_table(bt), "schema")
     if diff:
@@ -916,7 +1076,12 @@ def rac(tier, seed):
              "dicts, dynamic schemas, include fields, lists of items with a cross-field validator) x prior states (defaults | accepted assignments | load_tree | "
              "loads + in-place appends) x every candidate failing operation derived from the field options; plus held-item cases (an item the list already holds is "
              "invalidated via a cross-field validator or a required field reset to None, then re-appended / inserted / "
-             "assigned to a slot / popped and put back / passed in a whole-list assignment); a case is "
+             "assigned to a slot / popped and put back / passed in a whole-list assignment); plus whole-value-validator cases (typed "
+             "list<int>/list<string>/list<Schema>/dict<str,int> fields, also one level down, with a field validator "
+             "rejecting the value as a whole - sorted / at most 2 / has key 'a' / sum <= 10 - while the configuration "
+             "holds a non-empty value from default | assignment | load_tree; value given as list, tuple, proxy of "
+             "another configuration, own proxy after in-place mutation, list with a held item; op = attribute, dotted "
+             "path, item syntax, load_tree with only that key, sub-map; also checks the reference the user kept); a case is "
              "non-trivial iff the real operation raised in one of the listed ways; distinct = (schema, state, witness "
              "class, op)",
         bound="depth <= 3 (+ list items), <= 2 items per list explored, value pools: min-1/max+1/len+-1/wrong type/"
@@ -956,6 +1121,16 @@ def rac(tier, seed):
                 if status == "fail":
                     rec.violation(obligation=ob, what="[%s] %s" % (sname, detail), witness_key=wk,
                                   replay=_replay_dict(name, top, setup, op, "assign"))
+        sub = os.path.join(tmp, "enum-whole")
+        os.makedirs(sub)
+        for how, setup, ob, wk, variant, op, watch in whole_cases():
+            status, detail = check_whole(setup, op, watch, sub)
+            rec.case(key=("whole", wk, variant), nontrivial=status != "skip",
+                     sample={"schema": "whole-value-validator", "state": how, "witness": wk, "value": variant, "op": op,
+                             "result": status} if (wk, variant) == ("whole-value-validator:list<int>/default/setattr", "other-proxy") else None)
+            if status == "fail":
+                rec.violation(obligation=ob, what="[value given as %s] %s" % (variant, detail), witness_key=wk,
+                              replay=json.loads(json.dumps({"driver": PID, "mode": "whole", "setup": setup, "op": op, "watch": watch})))
         if tier != "quick":
             _thorough(rec, tmp)
     return rec.result(exhaustive=False)
@@ -987,6 +1162,12 @@ def _thorough(rec, tmp):
 
 
 def replay(case):
+    if case.get("mode") == "whole":
+        with sandbox() as tmp:
+            status, detail = check_whole(case["setup"], case["op"], case["watch"], tmp)
+        return {"fails": status == "fail",
+                "expected": "snapshot(root), the held container object and its contents identical after the rejected operation",
+                "observed": "%s: %s" % (status, detail)}
     with sandbox() as tmp:
         status, detail = check(case["spec"], case["setup"], case["op"], case["scope"], tmp)
     return {"fails": status == "fail", "expected": "snapshot(root) identical before and after the rejected operation",
